@@ -115,6 +115,9 @@ def schedule(rng, specs):
         if rng.random() < 0.85:
             sched.append(["eval", rng.choice([w for w in vs if w != v])])
             sched.append(["eval", v])
+        if pending[v] and rng.random() < 0.15:
+            # go on with a copy.deepcopy of the half-built, already evaluated model (the original stays alive)
+            sched.append(["clone", v])
     return sched
 
 
@@ -176,12 +179,15 @@ class Variant(object):
         self.applied = 0
         self.rejected = None
         self.tags = []
+        self.originals = []
 
     def sig_routes(self):
+        if self.originals:
+            return ""           # continuing on a deep copy: the signature names just that
         fm = ["%s.%s=%s" % it[:3] for it in form_items(self.spec, self.forms) if it[0] == "ctor"]
         tf = self.forms.get("then") or []
         fm += sorted({"then.%s=%s" % (o["op"], tf[i]) for i, o in enumerate(self.spec.get("then", [])[:self.applied]) if i < len(tf) and tf[i] != "add"})
-        return ",".join(sorted(set(self.routes))) + ("|forms=" + ",".join(fm) if fm else "")
+        return ":" + ",".join(sorted(set(self.routes))) + ("|forms=" + ",".join(fm) if fm else "")
 
     def build(self, viol):
         for attempt in range(2):
@@ -254,6 +260,9 @@ def stage_eval(V, env, pt, viol, mism, tags, complete_oracle=None):
     k, n_then = V.applied, len(V.spec.get("then", []))
     where = "variant %s after constructor + %d of %d incremental operations" % (V.name, k, n_then)
     sg = "stage:%s" % ("complete" if k == n_then else "partial")
+    if V.originals:
+        where += " (the later ones applied to a copy.deepcopy of the evaluated model)"
+        sg = "deepcopy-continued"
     try:
         fo = lambda e_: spec_oracle(V.spec, states, e_, upto=k)[0]
         f_o, V_o, a_o, _ = spec_oracle(V.spec, states, env, upto=k)
@@ -272,18 +281,18 @@ def stage_eval(V, env, pt, viol, mism, tags, complete_oracle=None):
         return
     tags.append(sg)
     if not vec_close(f_n, f_o, rel=1e-9, abs_=1e-9):
-        viol.append({"what": "%s: ode(x,t) is not the ODE of the processes entered so far" % where, "signature": sg + ":ode:" + V.sig_routes(),
+        viol.append({"what": "%s: ode(x,t) is not the ODE of the processes entered so far" % where, "signature": sg + ":ode" + V.sig_routes(),
                      "detail": "ode=%s expected=%s at %s" % (f_n.tolist(), [mpf_s(v) for v in f_o], pt)})
     if not np.all(np.abs(J_n - J_o) <= 1e-7 + 1e-7 * np.maximum(np.abs(J_n), np.abs(J_o))):
         viol.append({"what": "%s: jacobian(x,t) is not the derivative of the ODE of the processes entered so far" % where,
-                     "signature": sg + ":jacobian:" + V.sig_routes(), "detail": "jacobian=%s expected=%s at %s" % (J_n.tolist(), J_o.tolist(), pt)})
+                     "signature": sg + ":jacobian" + V.sig_routes(), "detail": "jacobian=%s expected=%s at %s" % (J_n.tolist(), J_o.tolist(), pt)})
     if a_o:
         try:
             got = pairs(m, x, t, nS)
             exp = sorted([[float(a_o[j])] + [float(v) for v in V_o[j]] for j in range(len(a_o))])
             if not multiset_close(got, exp):
                 viol.append({"what": "%s: (eventRateVector, vMat column) pairs are not the processes entered so far" % where,
-                             "signature": sg + ":rates+vmat:" + V.sig_routes(), "detail": "got=%s expected=%s at %s" % (got, exp, pt)})
+                             "signature": sg + ":rates+vmat" + V.sig_routes(), "detail": "got=%s expected=%s at %s" % (got, exp, pt)})
         except Exception as exc:
             viol.append({"what": "%s: eventRateVector/vMat raised %s: %s" % (where, type(exc).__name__, str(exc)[:200]),
                          "signature": "%s:evaluator-raise:%s" % (sg, type(exc).__name__), "detail": json.dumps(pt)})
@@ -320,6 +329,14 @@ def run_case(case):
             V.op(viol)
         elif act == "eval":
             stage_eval(V, env0, case["points"][0], viol, mism, tags)
+        elif act == "clone" and V.model is not None:
+            try:
+                V.originals.append(V.model)
+                V.model = copy.deepcopy(V.model)
+                tags.append("continued-on-deepcopy")
+            except Exception as exc:
+                V.model = V.originals.pop()
+                tags.append("deepcopy-raised:%s" % type(exc).__name__)
         if viol:
             break
     if not viol:
@@ -365,6 +382,11 @@ def run_case(case):
         viol.append({"what": "declared names / order not kept", "signature": "declaration-names", "detail": "%s %s declared %s %s" % (sA, pA, ab["states"], ab["params"])})
         return {"nontrivial": False, "mismatches": mism, "violations": viol, "tags": tags}
     nS = len(sA)
+
+    def sg(v, pre=""):
+        if Vs[v].originals or (not pre and Vs["A"].originals):
+            return "deepcopy-continued:final"
+        return pre + sig(case, v)
     odes = {v: list(Vs[v].model.get_ode_eqn()) for v in names}
     nonzero = False
     for pt in case["points"]:
@@ -389,12 +411,12 @@ def run_case(case):
             nonzero = True
         for v in names[1:]:
             if not all(E.close(x, y, rel=mpf("1e-12"), abs_=mpf("1e-13")) for x, y in zip(sv["A"], sv[v])):
-                viol.append({"what": "get_ode_eqn() differs between two equivalent specifications (A, %s)" % v, "signature": sig(case, v),
+                viol.append({"what": "get_ode_eqn() differs between two equivalent specifications (A, %s)" % v, "signature": sg(v),
                              "detail": "A=%s %s=%s at %s" % ([mpf_s(z) for z in sv["A"]], v, [mpf_s(z) for z in sv[v]], pt)})
         if ref is not None:
             for v in names:
                 if not all(E.close(x, y, rel=mpf("1e-12"), abs_=mpf("1e-13")) for x, y in zip(sv[v], ref[0])):
-                    viol.append({"what": "get_ode_eqn() of variant %s is not the ODE of the process set" % v, "signature": "spec:" + sig(case, v),
+                    viol.append({"what": "get_ode_eqn() of variant %s is not the ODE of the process set" % v, "signature": sg(v, "spec:"),
                                  "detail": "%s=%s expected=%s at %s" % (v, [mpf_s(z) for z in sv[v]], [mpf_s(z) for z in ref[0]], pt)})
         x = fl(env, sA); th = fl(env, pA); t = float(env["t"])
         try:
@@ -410,22 +432,22 @@ def run_case(case):
                 num[v] = num[v] + (q,)
             for v in names[1:]:
                 if not vec_close(num["A"][0], num[v][0], rel=1e-9, abs_=1e-9):
-                    viol.append({"what": "ode(x,t) differs between equivalent specifications (A, %s)" % v, "signature": sig(case, v),
+                    viol.append({"what": "ode(x,t) differs between equivalent specifications (A, %s)" % v, "signature": sg(v),
                                  "detail": "%s vs %s" % (num["A"][0].tolist(), num[v][0].tolist())})
                 if not vec_close(num["A"][1], num[v][1], rel=1e-8, abs_=1e-8):
-                    viol.append({"what": "jacobian(x,t) differs between equivalent specifications (A, %s)" % v, "signature": sig(case, v),
+                    viol.append({"what": "jacobian(x,t) differs between equivalent specifications (A, %s)" % v, "signature": sg(v),
                                  "detail": "%s vs %s" % (num["A"][1].tolist(), num[v][1].tolist())})
                 if num["A"][2] is not None and num[v][2] is not None and not multiset_close(num["A"][2], num[v][2]):
                     viol.append({"what": "(eventRateVector, vMat column) multiset differs between equivalent specifications (A, %s)" % v,
-                                 "signature": sig(case, v), "detail": "%s vs %s" % (num["A"][2], num[v][2])})
+                                 "signature": sg(v), "detail": "%s vs %s" % (num["A"][2], num[v][2])})
             if ref is not None:
                 exp = sorted([[float(ref[2][j])] + [float(z) for z in ref[1][j]] for j in range(len(ref[2]))])
                 for v in names:
                     if not vec_close(num[v][0], ref[0], rel=1e-9, abs_=1e-9):
-                        viol.append({"what": "ode(x,t) of variant %s is not the ODE of the process set" % v, "signature": "spec:" + sig(case, v),
+                        viol.append({"what": "ode(x,t) of variant %s is not the ODE of the process set" % v, "signature": sg(v, "spec:"),
                                      "detail": "%s expected %s at %s" % (num[v][0].tolist(), [mpf_s(z) for z in ref[0]], pt)})
                     if num[v][2] is not None and not multiset_close(num[v][2], exp):
-                        viol.append({"what": "(eventRateVector, vMat column) pairs of variant %s are not the process set" % v, "signature": "spec:" + sig(case, v),
+                        viol.append({"what": "(eventRateVector, vMat column) pairs of variant %s are not the process set" % v, "signature": sg(v, "spec:"),
                                      "detail": "%s expected %s at %s" % (num[v][2], exp, pt)})
         except Exception as exc:
             viol.append({"what": "evaluator raised %s: %s" % (type(exc).__name__, str(exc)[:200]), "signature": "evaluator-raise:%s" % type(exc).__name__, "detail": ""})
